@@ -32,6 +32,7 @@ def _say(*a):
 class History:
     def __init__(self, d: Path, encrypted=True, concurrent=2, delays=None, fresh_objects=False):
         self.U = users(encrypted)
+        rt.determinism(11)
         self.d = d
         self.be = rt.MemBackend({'config': self.U.config}, delays=delays)
         self.concurrent = concurrent
@@ -63,6 +64,11 @@ class History:
         self.snaps.append({'name': res.name, 'owner': u, 'files': files, 'alive': True, 'chunks': list(res.chunks), 'fs': fs})
         # the snapshot object itself goes through upload(), chunks through upload_stream()
         self.upload_log.append((self.n, self.be.counts['upload_stream'] - before_up, self.be.uploaded_bytes - before_bytes))
+        return res
+
+    def snapshot_paths(self, u, paths):
+        res = self.run(self.repo(u).snapshot(paths=list(paths)))
+        self.snaps.append({'name': res.name, 'owner': u, 'files': None, 'alive': True, 'chunks': list(res.chunks), 'fs': None})
         return res
 
     def delete_latest(self, u):
